@@ -372,6 +372,12 @@ func ModelOSTempDir() string         { return "/tmp" }
 func ModelGetenv(string) string      { return "" }
 func ModelSetenv(k, v string) error  { return nil }
 
+// ModelIsTimeout is os.IsTimeout: true for errors that say so themselves.
+func ModelIsTimeout(err error) bool {
+	t, ok := err.(interface{ Timeout() bool })
+	return ok && t.Timeout()
+}
+
 // ---- *os.File ----
 
 func (m *mFS) fd(f *os.File) (*mFD, error) {
